@@ -546,6 +546,8 @@ type SpecSet struct {
 	Lemmas []*LemmaSpec
 	Files  []string
 	Raw    map[string][]string // file -> //@ lines (for the assumption scan)
+	LockClasses map[string]*LockClass
+	lcLines map[string][]string
 }
 
 func NewSpecSet() *SpecSet {
@@ -578,8 +580,9 @@ func (ss *SpecSet) LoadSpecFile(path string, pkgPath string) error {
 
 var clauseKW = map[string]bool{"arith": true, "float": true, "requires": true, "ensures": true, "modifies": true,
 	"loop": true, "invariant": true, "decreases": true, "inline": true, "pure": true, "trusted": true, "opt": true,
-	"let": true, "assume": true, "prove": true, "vars": true, "ghost": true, "calls": true, "usespec": true}
-var topKW = map[string]bool{"func": true, "spec": true, "pred": true, "lemma": true, "package": true, "uninterp": true}
+	"let": true, "assume": true, "prove": true, "vars": true, "ghost": true, "calls": true, "usespec": true,
+	"guarded": true, "initonly": true, "confined": true, "channel": true, "initfuncs": true, "conffuncs": true, "entry": true, "heldfuncs": true}
+var topKW = map[string]bool{"func": true, "spec": true, "pred": true, "lemma": true, "package": true, "uninterp": true, "lockclass": true}
 
 func firstWord(s string) (string, string) {
 	s = strings.TrimSpace(s)
@@ -617,6 +620,17 @@ func (ss *SpecSet) parseLines(lines []string, pkgPath, file string) error {
 	var cur *FuncSpec
 	var curLoop *LoopSpec
 	var curLemma *LemmaSpec
+	curLC := ""
+	if ss.LockClasses == nil {
+		ss.LockClasses = map[string]*LockClass{}
+		ss.lcLines = map[string][]string{}
+	}
+	defer func() {
+		for k, lines := range ss.lcLines {
+			parts := strings.SplitN(k, "\x00", 2)
+			ss.LockClasses[parts[1]] = parseLockClass(lines, parts[0], parts[1])
+		}
+	}()
 	mkClause := func(rest string, ln int) (Clause, error) {
 		label := ""
 		// optional label:  [name] expr
@@ -634,7 +648,18 @@ func (ss *SpecSet) parseLines(lines []string, pkgPath, file string) error {
 		return Clause{Label: label, Expr: e, Src: r}, nil
 	}
 	for _, it := range items {
+		if it.kw != "lockclass" && curLC != "" {
+			switch it.kw {
+			case "guarded", "initonly", "confined", "channel", "initfuncs", "conffuncs", "entry", "heldfuncs":
+				ss.lcLines[curLC] = append(ss.lcLines[curLC], it.kw+" "+it.rest)
+				continue
+			}
+			curLC = ""
+		}
 		switch it.kw {
+		case "lockclass":
+			curLC = pkgPath + "\x00" + strings.TrimSpace(it.rest)
+			cur, curLoop, curLemma = nil, nil, nil
 		case "package":
 			pkgPath = strings.TrimSpace(it.rest)
 			cur, curLoop, curLemma = nil, nil, nil
